@@ -4,6 +4,7 @@ import (
 	"fmt"
 	"math/big"
 	"strings"
+	"time"
 
 	abci "github.com/tendermint/tendermint/abci/types"
 
@@ -139,13 +140,26 @@ func (p *pair) probe(in Input, cls string) *verdict {
 		u := f.W.G.U.Users
 		return txgen.Send(u[probeUser], u[probeUser].Addr, u[probeDest].Addr, txgen.Amt("OLT", big.NewInt(1000+int64(p.probeN))), f.W.Fee, fmt.Sprintf("probe-%d", p.probeN))
 	}
+	// a staking-family transaction rides along: it must come back (store locks leaked by the input
+	// would block it or the block end); its result code is not compared, the input may have changed the stake
+	mkStake := func(f *hist.Farm) txgen.Tx {
+		v := f.W.G.U.Vals[2]
+		if p.probeN%2 == 1 {
+			return txgen.Stake(v, v.Stake.Addr, txgen.Amt("OLT", big.NewInt(1)), f.W.Fee, fmt.Sprintf("probe-stake-%d", p.probeN))
+		}
+		return txgen.Unstake(v.Key.Addr, v.Stake.Addr, txgen.Amt("OLT", big.NewInt(1)), f.W.Fee, fmt.Sprintf("probe-unstake-%d", p.probeN), v.Stake, v.Key)
+	}
 	S := p.S.W.R[0]
 	tx := mk(p.S)
+	stk := mkStake(p.S)
 	ck := S.CheckTx(tx.Bytes)
+	if !S.Panicked {
+		S.CheckTx(stk.Bytes)
+	}
 	if S.Panicked {
 		return &verdict{"node-panic", cls, fmt.Sprintf("after a %s input (tags %v) the probe's CheckTx made the application panic", in.Kind, in.Tags)}
 	}
-	b, res := p.S.W.RunBlock(sim.BlockSpec{GapSecs: 5, Txs: [][]byte{tx.Bytes}})
+	b, res := p.S.W.RunBlock(sim.BlockSpec{GapSecs: 5, Txs: [][]byte{tx.Bytes, stk.Bytes}})
 	if S.Panicked {
 		return &verdict{"node-panic", cls, fmt.Sprintf("after a %s input (tags %v) the probe block %d made the application panic in %s", in.Kind, in.Tags, b.Height, S.PanicCall)}
 	}
@@ -153,10 +167,10 @@ func (p *pair) probe(in Input, cls string) *verdict {
 	if S.Panicked {
 		return &verdict{"node-panic", cls, fmt.Sprintf("after a %s input (tags %v) Info made the application panic", in.Kind, in.Tags)}
 	}
-	if ck.Code != 0 || len(res[0].Txs) != 1 || res[0].Txs[0].Code != 0 {
+	if ck.Code != 0 || len(res[0].Txs) != 2 || res[0].Txs[0].Code != 0 {
 		dl := ""
 		dc := uint32(99)
-		if len(res[0].Txs) == 1 {
+		if len(res[0].Txs) >= 1 {
 			dl, dc = res[0].Txs[0].Log, res[0].Txs[0].Code
 		}
 		return &verdict{"probe-failed", cls, fmt.Sprintf("after a %s input (tier %s, tags %v) a fresh valid SEND from an untouched account no longer succeeds: CheckTx code %d %.200q, DeliverTx code %d %.200q", in.Kind, in.Tier, in.Tags, ck.Code, ck.Log, dc, dl)}
@@ -167,9 +181,11 @@ func (p *pair) probe(in Input, cls string) *verdict {
 	if p.C != nil {
 		C := p.C.W.R[0]
 		ctx := mk(p.C)
+		cstk := mkStake(p.C)
 		cck := C.CheckTx(ctx.Bytes)
-		_, cres := p.C.W.RunBlock(sim.BlockSpec{GapSecs: 5, Txs: [][]byte{ctx.Bytes}})
-		if cck.Code != 0 || len(cres[0].Txs) != 1 || cres[0].Txs[0].Code != 0 {
+		C.CheckTx(cstk.Bytes)
+		_, cres := p.C.W.RunBlock(sim.BlockSpec{GapSecs: 5, Txs: [][]byte{ctx.Bytes, cstk.Bytes}})
+		if cck.Code != 0 || len(cres[0].Txs) != 2 || cres[0].Txs[0].Code != 0 {
 			return &verdict{"harness", "control", fmt.Sprintf("the probe fails on the control node: %d %q", cck.Code, cck.Log)}
 		}
 		s, c := res[0].Txs[0], cres[0].Txs[0]
@@ -179,4 +195,46 @@ func (p *pair) probe(in Input, cls string) *verdict {
 		}
 	}
 	return nil
+}
+
+// ---- watchdog: "keeps serving" also means the calls come back ----
+
+// caseTimeout bounds the ABCI calls of one input (mempool check, its block, the probe block, Info). They
+// take milliseconds; the bound is generous because the machine may be heavily loaded. It is a guard, not
+// an oracle: only a timeout that reproduces on a fresh node with twice the bound is reported.
+var caseTimeout = 120 * time.Second
+
+// guarded runs f in its own goroutine and reports whether it returned within d. A goroutine stuck inside
+// the application cannot be killed; it is abandoned together with its node.
+func guarded(d time.Duration, f func()) bool {
+	done := make(chan struct{})
+	go func() {
+		defer close(done)
+		f()
+	}()
+	select {
+	case <-done:
+		return true
+	case <-time.After(d):
+		return false
+	}
+}
+
+// rerunInputs executes the inputs on a fresh pair with the doubled bound; it returns the pair and the
+// index of the input that did not come back (-1 if all did), or the verdict of an input that violated.
+func rerunInputs(seed string, o hist.FarmOpts, inputs []Input) (*pair, int, *verdict, error) {
+	p, err := newPair(seed, o, true)
+	if err != nil {
+		return nil, -1, nil, err
+	}
+	for i, in := range inputs {
+		var v *verdict
+		if !guarded(2*caseTimeout, func() { v, _ = p.runInput(in) }) {
+			return p, i, nil, nil
+		}
+		if v != nil {
+			return p, -1, v, nil
+		}
+	}
+	return p, -1, nil, nil
 }
